@@ -364,6 +364,8 @@ def main(prop, tier, runs=None, k=None, write=True):
         "program_step_kinds": kinds,
         "programs_with_a_write_while_an_unread_selection_of_the_target_is_alive": int(tot.get("hazard_programs", 0)),
         "stale_alias_divergences_attributed_to_R01": int(tot.get("stale_alias_divergences", 0)),
+        "runs_with_ballast_of_1100_live_unread_selections": int(tot.get("runs_with_ballast", 0)),
+        "selection_steps_returning_normally": f"{int(tot.get('sel_steps_ok', 0))} of {int(tot.get('sel_steps', 0))}",
         "runs_per_hour": int(tot["programs"] / max(wall, 1e-9) * 3600),
         "executions_per_hour": int(tot["executions"] / max(wall, 1e-9) * 3600),
         "workers": pool.n_workers(),
